@@ -211,8 +211,13 @@ func c17numbers(c *Ctx) {
 			if tname == "" {
 				continue
 			}
+			isJSONNumber := func(s *px.Sym) bool {
+				s = s.Strip(false)
+				return s != nil && s.Typ != nil && types.TypeString(s.Typ, nil) == "encoding/json.Number"
+			}
 			switch {
-			case p.Has(calleeIs(encPkg + ".convertNumberToJsonNumber")):
+			case isJSONNumber(p.Results[0]):
+				// whether built by a helper or by an in-line conversion: the value handed on is a json.Number
 				covered[tname] = true
 			default:
 				for _, e := range p.All(px.KindIs(px.EvCall)) {
